@@ -537,6 +537,10 @@ def rule_conjunction(ctx: Ctx):
     c01.rule_allof(ctx, rule="C08.conj")
     c01.rule_expected(ctx, rule="C08.conj")
     c15.rule_copy(ctx, rule="C08.conj")
+    # under the async engine a guard's verdict is the awaited value, whatever kind of callable produced the awaitable
+    from . import c05
+
+    c05.rule_wrapper(ctx, rule="C08.conj")
 
 
 RULES = [rule_regex, rule_optable, rule_build, rule_fast, rule_when, rule_fresh, rule_identity, rule_conjunction]
